@@ -59,9 +59,12 @@ fn monitors_inner(c: &Case, ctx: &mut Ctx, sim: &mut Sim) -> CaseResult {
 	for op in c.ops.iter() {
 		let tag = apply(sim, &c.spec, op);
 		tags.push(tag);
-		h.step(sim, is_chain_tag(tag))?;
+		if std::env::var("C12_NOHARVEST").is_err() {
+			h.step(sim, is_chain_tag(tag))?;
+		}
 	}
 	let st = &h.stats;
+	T_READ.with(|t| { let t = t.borrow(); if true { vcore::report(&format!("reads {} avg {}us avg {} bytes", t.0, t.1 / t.0.max(1), t.2 / t.0.max(1))); } });
 	ctx.sub_evaluations(st.images + st.live_snapshots + st.updates);
 	ctx.label_if(st.commute_strict > 0, "commute-strict");
 	ctx.label_if(st.commute_lenient_ok > 0, "commute-in-chain-op-ok");
@@ -86,9 +89,210 @@ fn monitors_inner(c: &Case, ctx: &mut Ctx, sim: &mut Sim) -> CaseResult {
 	Ok(())
 }
 
+// ---------------------------------------------------------------------------------------------------
+// (c) manager: differential re-execution in a twin world
+// ---------------------------------------------------------------------------------------------------
+
+#[derive(Clone, Debug, Serialize, Deserialize)]
+struct TwinCase {
+	spec: WorldSpec,
+	prefix: Vec<Op>,
+	node: u16,
+	suffix: Vec<Op>,
+}
+
+fn suffix_weights() -> OpWeights {
+	OpWeights { send: 30, claim: 22, fail: 7, events: 4, forwards: 4, disconnect: 3, setfee: 2, timer: 2, async_toggle: 3, pump: 6, force_close: 4, mine: 12, ..OpWeights::zero() }
+}
+
+fn twin_strat() -> impl Strategy<Value = TwinCase> {
+	(
+		world_spec(vec![Topology::Pair, Topology::Line3, Topology::Line3]),
+		proptest::collection::vec(op_strategy(weights()), 8..45),
+		any::<u16>(),
+		proptest::collection::vec(op_strategy(suffix_weights()), 3..14),
+	)
+		.prop_map(|(spec, prefix, node, suffix)| TwinCase { spec, prefix, node, suffix })
+}
+
+fn twin_oracle(c: &TwinCase, ctx: &mut Ctx) -> CaseResult {
+	let mut a = c.spec.build(true);
+	let mut b = c.spec.build(true);
+	let r = twin_inner(c, ctx, &mut a, &mut b);
+	if ctx.replay && r.is_err() {
+		println!("==== history of the original world ====\n{}", dump_history(&a));
+		println!("==== history of the twin (reloaded) world ====\n{}", dump_history(&b));
+	}
+	r
+}
+
+fn first_char_diff(a: &[String], b: &[String]) -> String {
+	if a.len() == 1 && b.len() == 1 {
+		let (x, y) = (a[0].as_bytes(), b[0].as_bytes());
+		let p = x.iter().zip(y.iter()).position(|(c, d)| c != d).unwrap_or(x.len().min(y.len()));
+		let lo = p.saturating_sub(120);
+		return format!("first difference at {}: ...{} | {}", p, String::from_utf8_lossy(&x[lo..(p + 80).min(x.len())]), String::from_utf8_lossy(&y[lo..(p + 80).min(y.len())]));
+	}
+	String::new()
+}
+
+fn sort_mempools(a: &mut Sim, b: &mut Sim) {
+	a.chain.mempool.sort_by_key(|t| t.compute_txid());
+	b.chain.mempool.sort_by_key(|t| t.compute_txid());
+}
+
+fn twin_inner(c: &TwinCase, ctx: &mut Ctx, a: &mut Sim, b: &mut Sim) -> CaseResult {
+	let lenient = std::env::var("C12_TWIN_LENIENT").is_ok();
+	let mut tags: Vec<&'static str> = vec![];
+	for op in c.prefix.iter() {
+		sort_mempools(a, b);
+		let ta = apply(a, &c.spec, op);
+		let tb = apply(b, &c.spec, op);
+		tags.push(ta);
+		if ta != tb {
+			ctx.label("prefix-diverged");
+			return Ok(());
+		}
+	}
+	// both worlds went through the same history: they must look the same (otherwise the simulator or the
+	// library is not deterministic enough for this comparison; no verdict)
+	let m0 = ForkMark { log_pos: 0, bc_pos: vec![0; a.w.n] };
+	if let Some((k, _, _)) = surface_diff(&surface(a, &m0), &surface(b, &m0)) {
+		if lenient {
+			vcore::report(&format!("prefix diverged in {}", k));
+		}
+		ctx.label(&format!("prefix-diverged:{}", k.split('.').last().unwrap_or("")));
+		return Ok(());
+	}
+	let x = pick(c.node, a.w.n);
+	// non-triviality: what is pending at the node at the moment of the write
+	let chans = a.w.nodes[x].node.list_channels();
+	let pending_htlcs = chans.iter().any(|d| !d.pending_inbound_htlcs.is_empty() || !d.pending_outbound_htlcs.is_empty());
+	let inflight = !a.w.pending_updates(x).is_empty();
+	let closed_pending = a.w.nodes[x].chain_monitor.chain_monitor.get_claimable_balances(&[]).iter().any(|b| !matches!(b, lightning::chain::channelmonitor::Balance::ClaimableOnChannelClose { .. }));
+	let queued = (0..a.w.n).any(|j| j != x && (a.queued(x, j) > 0 || a.queued(j, x) > 0));
+	ctx.label_if(pending_htlcs, "at-write:pending-htlcs");
+	ctx.label_if(inflight, "at-write:monitor-update-in-flight");
+	ctx.label_if(closed_pending, "at-write:onchain-claims-pending");
+	ctx.label_if(queued, "at-write:messages-in-flight");
+	let ma = fork_mark(a);
+	let mb = fork_mark(b);
+	a.c12_bounce(x, &c.spec);
+	if let Err(e) = b.c12_reload(x) {
+		return Err(Failure::new("manager-read", format!("node {} did not reload from its own encoding and current monitors: {}", x, e)).with_key("manager-read/reload"));
+	}
+	let mut compared = 0u64;
+	let prefix_tags = tags.clone();
+	let mut step = |a: &mut Sim, b: &mut Sim, ctx: &mut Ctx, what: &str| -> Result<bool, Failure> {
+		a.c12_rebroadcast_all();
+		b.c12_rebroadcast_all();
+		let qa = a.settle(60);
+		let qb = b.settle(60);
+		if !qa || !qb {
+			ctx.label("not-quiescent");
+			return Ok(false);
+		}
+		compared += 1;
+		if let Some((k, oa, ob)) = surface_diff(&surface(a, &ma), &surface(b, &mb)) {
+			let class = k.split('.').last().unwrap_or("").to_string();
+			if lenient && std::env::var("C12_TWIN_ONLY").map(|v| v != class).unwrap_or(true) {
+				ctx.label(&format!("diff:{}", class));
+				let mut extra = format!("deferred={} ctype={:?} topo={:?} x={} prefix={:?}", c.spec.deferred, c.spec.ctype, c.spec.topo, x, prefix_tags);
+				if class == "broadcasts" {
+					for (w, sim) in [("orig", &*a), ("reloaded", &*b)] {
+						for (i, l) in sim.broadcasts.iter().enumerate() {
+							for t in l.iter() {
+								let id = format!("{}", t.compute_txid());
+								if oa.contains(&id) || ob.contains(&id) {
+									extra += &format!("\n   {} n{} tx {} inputs {:?} outs {} locktime {}", w, i, id, t.input.iter().map(|i| format!("{}:{}", &i.previous_output.txid.to_string()[..8], i.previous_output.vout)).collect::<Vec<_>>(), t.output.len(), t.lock_time);
+								}
+							}
+						}
+					}
+				}
+				if class == "bump-events" {
+					let sa = surface(a, &ma);
+					let sb = surface(b, &mb);
+					let short = |e: &String| -> String {
+						let p = e.find("package_target_feerate").unwrap_or(0);
+						let q = e.find("pending_htlcs").unwrap_or(e.len().saturating_sub(200));
+						format!("{} ... {}", e[p..(p + 60).min(e.len())].to_string(), e[q..(q + 300).min(e.len())].to_string())
+					};
+					for (w, s) in [("orig", &sa), ("reloaded", &sb)] {
+						for (k2, v) in s.iter() {
+							if k2.contains(&format!("n{}.bump-events", x)) {
+								for e in v.iter() {
+									extra += &format!("\n   {} {}: {}", w, k2, short(e));
+								}
+							}
+						}
+					}
+				}
+				if class == "events" {
+					let sa = surface(a, &ma);
+					let xnode = x;
+					for x in ob.iter() {
+						let name: String = x.chars().take_while(|c| c.is_alphanumeric()).collect();
+						for (k2, v) in sa.iter() {
+							if k2.ends_with("events-before") || k2.ends_with(".events") {
+								for e in v.iter().filter(|e| e.starts_with(&name)) {
+									extra += &format!("\n   orig {}: {}", k2, e);
+								}
+							}
+						}
+						extra += &format!("\n   RELOADED-ONLY: {}", x);
+						if name == "PaymentPathSuccessful" {
+							for (w, sim) in [("orig", &*a), ("reloaded", &*b)] {
+								for (st, e) in sim.log.iter() {
+									match e {
+										SEvent::Ldk { node, ev } if *node == xnode => extra += &format!("\n     {} @{} n{} {}", w, st, node, format!("{:?}", ev).chars().take(110).collect::<String>()),
+										SEvent::Restart { .. } | SEvent::Disconnect { .. } | SEvent::Mined { .. } => extra += &format!("\n     {} @{} {}", w, st, format!("{:?}", e).chars().take(100).collect::<String>()),
+										SEvent::Api { what, .. } => extra += &format!("\n     {} @{} api {}", w, st, what),
+										_ => {},
+									}
+								}
+							}
+						}
+					}
+				}
+				vcore::report(&extra);
+				let cut = |v: &Vec<String>| v.iter().map(|s| s.chars().take(300).collect::<String>()).collect::<Vec<_>>();
+				vcore::report(&format!("DIFF after {} in {}:\n  only original: {:?}\n  only reloaded: {:?}\n  {}", what, k, cut(&oa), cut(&ob), first_char_diff(&oa, &ob)));
+				return Ok(false);
+			}
+			return Err(Failure::new("twin-surface", format!("after {}: {} differs between the world that kept running and the world where node {} was reloaded from its own encoding\n  only original: {:?}\n  only reloaded: {:?}", what, k, x, oa, ob)).with_key(format!("twin-surface/{}", class)));
+		}
+		Ok(true)
+	};
+	if !step(a, b, ctx, "reload + reconnect")? {
+		return Ok(());
+	}
+	for (i, op) in c.suffix.iter().enumerate() {
+		sort_mempools(a, b);
+		let ta = apply(a, &c.spec, op);
+		let tb = apply(b, &c.spec, op);
+		tags.push(ta);
+		if ta != tb {
+			if lenient {
+				ctx.label("diff:op-outcome");
+				return Ok(());
+			}
+			return Err(Failure::new("twin-op-outcome", format!("suffix op {} {:?}: original world: {}, reloaded world: {}", i, op, ta, tb)).with_key("twin-op-outcome"));
+		}
+		if !step(a, b, ctx, &format!("suffix op {} ({})", i, ta))? {
+			return Ok(());
+		}
+	}
+	ctx.sub_evaluations(compared);
+	ctx.nontrivial_if(pending_htlcs || inflight || closed_pending);
+	ctx.summary(json!({"topo": format!("{:?}", c.spec.topo), "node": x, "ops": tags, "compared": compared}));
+	Ok(())
+}
+
 fn main() {
 	install_recording_signer();
 	let mut c = Check::new("C12", "exploration");
 	c.part_with(PartSpec { name: "monitors", rule: "wip", quick_cases: 400, thorough_cases: 20_000, max_shrink: 300 }, || strat(70), monitors_oracle);
+	c.part_with(PartSpec { name: "manager-twin", rule: "wip", quick_cases: 300, thorough_cases: 10_000, max_shrink: 300 }, twin_strat, twin_oracle);
 	c.finish();
 }
